@@ -124,6 +124,9 @@ func specVol(sb *strings.Builder, v *Vol) bool {
 }
 
 func specSec(sb *strings.Builder, s *Sec) bool {
+	if s.ExtAny && !(s.Vol == nil && isLeafType(s.Type)) {
+		return false // extended header on a section fiano regenerates in the short form: not an identity
+	}
 	switch {
 	case s.Vol != nil:
 		sb.WriteString(" SF")
@@ -161,7 +164,7 @@ func specSec(sb *strings.Builder, s *Sec) bool {
 			sb.WriteString(" " + o)
 		}
 	default:
-		if s.Ext && isLeafType(s.Type) {
+		if (s.Ext || s.ExtAny) && isLeafType(s.Type) {
 			fmt.Fprintf(sb, " SX %x %s", s.Type, H(s.Body))
 		} else {
 			fmt.Fprintf(sb, " SL %x %s", s.Type, H(s.Body))
